@@ -5,6 +5,7 @@ import (
 	"time"
 	"testing"
 
+	"verif/sim/pktcodec"
 	"verif/sim/simrt"
 )
 
@@ -33,6 +34,27 @@ func runC03(t *testing.T, c simrt.Chooser, o Opts) *Out {
 	if sc.exitDelay >= 300*time.Millisecond && len(sc.Spec.Ports) <= 200 && p.pct("readerrs", 15) {
 		// a flapping link: unknown read errors (up to 30 with long exit delays) while replies keep arriving
 		injectReadErrors(sc, min(8+p.n("nreaderrs", 23), maxReadErrors(sc.exitDelay)))
+	}
+	if sc.exitDelay >= 300*time.Millisecond && !sc.Spec.VPN && (sc.Spec.Kind == "icmp" || sc.Spec.Kind == "arp") && p.pct("decodeflood", 10) {
+		// a burst of frames that pass the socket filter but cannot be decoded (cut off inside the
+		// ICMP / ARP header): far more processing errors than the 100-slot error channels hold, all
+		// in the first 40 % of the exit delay - replies that arrive later are still replies
+		n := 120 + p.n("nflood", 200)
+		gap := sc.exitDelay * 4 / 10 / time.Duration(n+1)
+		our := pktcodec.IP4(ipU32("10.0.0.1"))
+		for i := 0; i < n; i++ {
+			src := ipU32("10.0.0.0") + uint32(2+p.n("fsrc", 250))
+			mac := hostMAC(src)
+			var frame []byte
+			if sc.Spec.Kind == "icmp" {
+				frame = sc.plan.wrap(mac, pktcodec.EncodeIPv4(pktcodec.IP4(src), our, pktcodec.ProtoICMP, []byte{0, 0}, pktcodec.IPOpts{ID: uint16(i), TTL: 64}))
+			} else {
+				frame = append(pktcodec.EthHeader(sc.plan.ourMAC, mac, pktcodec.EtherTypeARP), 0, 1, 8, 0, 6, 4, 0)
+			}
+			sc.plan.unsol = append(sc.plan.unsol, unsolFrame{delay: time.Duration(i+1) * gap, data: frame, tag: "undecodable"})
+		}
+		sc.Unsol += n
+		simrtFault(&Out{Stats: map[string]int{}}, "decode-error-flood")
 	}
 	out := &Out{Scenario: sc, Stats: map[string]int{}}
 	cr := runPacketScenario(t, c, o, sc)
